@@ -454,6 +454,91 @@ class Function:
             self._loops = out
         return self._loops
 
+    def returns_flag(self):
+        """every returned value is a 0/1 truth value (a predicate helper)"""
+        r = getattr(self, '_returns_flag', None)
+        if r is None:
+            self._returns_flag = False          # recursion guard
+
+            def b(v, seen):
+                if v.k == 'ci':
+                    return v.ival in (0, 1) or v.width == 1
+                if v.k != 'inst' or v.id in seen:
+                    return v.k == 'inst'
+                i = self.insts[v.id]
+                seen = seen | {v.id}
+                if i.bits == 1 and i.op in ('icmp', 'fcmp', 'and', 'or', 'xor'):
+                    return True
+                if i.op in ('zext', 'trunc', 'freeze'):
+                    return b(i.ops[0], seen)
+                if i.op in ('select',):
+                    return b(i.ops[1], seen) and b(i.ops[2], seen)
+                if i.op == 'phi':
+                    return all(b(o, seen) for o in i.ops)
+                return False
+            rets = [x for x in self.returns() if x.ops]
+            r = self._returns_flag = bool(rets) and all(b(x.ops[0], frozenset()) for x in rets)
+        return r
+
+    def flag_loops(self):
+        """loops one of whose exit tests reads a header phi that carries a 0/1 FLAG computed in the previous iteration
+        (`done = is_end(p[i])` ... `while (!done)`).  The fact the flag stands for ("not done => p[i] is not the terminator")
+        is a disjunctive invariant; the conjunctive numeric domain of the interpreter loses it, so an obligation that fails
+        inside such a loop is not a verdict.  -> list of (loop, phi)"""
+        r = getattr(self, '_flag_loops', None)
+        if r is not None:
+            return r
+        def is_bool(v, seen):
+            if v.k == 'ci':
+                return v.ival in (0, 1) or (v.width == 1)
+            if v.k != 'inst':
+                return False
+            if v.id in seen:
+                return True
+            seen = seen | {v.id}
+            i = self.insts[v.id]
+            if i.bits == 1 and i.op in ('icmp', 'fcmp', 'and', 'or', 'xor'):
+                return True
+            if i.op in ('zext', 'trunc', 'sext', 'freeze'):
+                return is_bool(i.ops[0], seen)
+            if i.op in ('and', 'or', 'xor'):
+                return all(is_bool(o, seen) for o in i.ops)
+            if i.op == 'select':
+                return is_bool(i.ops[1], seen) and is_bool(i.ops[2], seen)
+            if i.op == 'phi':
+                return all(is_bool(o, seen) for o in i.ops)
+            if i.op == 'call' and i.callee:
+                g = self.mod.fn(i.callee)
+                if g is not None and not g.decl and g is not self:
+                    return g.returns_flag()
+            return False
+
+        def reads(v, target, depth=0):
+            if v.k != 'inst' or depth > 8:
+                return False
+            if v.id == target:
+                return True
+            i = self.insts[v.id]
+            if i.op in ('icmp', 'zext', 'trunc', 'sext', 'and', 'or', 'xor', 'select', 'freeze'):
+                return any(reads(o, target, depth + 1) for o in i.ops)
+            return False
+        r = []
+        for L in self.loops:
+            phis = [i for i in L['header'].insts if i.op == 'phi' and i.ty.get('k') == 'int' and (i.bits or 64) <= 32]
+            flags = []
+            for ph in phis:
+                inc = [v for (bb, v) in ph.incoming]
+                if any(v.k == 'inst' for v in inc) and all(is_bool(v, frozenset([ph.id])) for v in inc):
+                    flags.append(ph)
+            for (b, _) in L['exits']:
+                t = b.term
+                if t.op == 'br' and 'f' in t.d and t.ops:
+                    for ph in flags:
+                        if reads(t.ops[0], ph.id):
+                            r.append((L, ph))
+        self._flag_loops = r
+        return r
+
     # ---------------- uses ----------------
     @property
     def uses(self):
